@@ -6,10 +6,12 @@ G = Goal
 
 
 def enforce(unit, f, **kw):
+    kw.setdefault('timeout', 400)
     return G(f, unit, enforce=f, **kw)
 
 
 def plain(unit, h, **kw):
+    kw.setdefault('timeout', 400)
     return G(h, unit, harness=h, kind='plain', **kw)
 
 
@@ -23,7 +25,7 @@ CIVIL_LEMMAS = ['lemma_div146097', 'lemma_div400', 'lemma_fdshift4', 'lemma_fdsh
 
 
 def civil_spec_lemmas():
-    return [plain('civil', 'pl_' + l, timeout=300) for l in CIVIL_LEMMAS]
+    return [plain('civil', 'pl_' + l, timeout=600) for l in CIVIL_LEMMAS]
 
 
 def civil_leaves():
@@ -32,23 +34,23 @@ def civil_leaves():
 
 
 def civil_nday():
-    return [enforce('civil', 'n_day', timeout=400)]
+    return [enforce('civil', 'n_day', timeout=800)]
 
 
 def civil_carry_chain():
-    return [enforce('civil', f, timeout=300) for f in ('n_mon', 'n_hour', 'n_min', 'n_sec')] + \
+    return [enforce('civil', f, timeout=600) for f in ('n_mon', 'n_hour', 'n_min', 'n_sec')] + \
            [enforce('civil', 'align_' + t) for t in ('second', 'minute', 'hour', 'day', 'month', 'year')] + \
-           [enforce('civil', 'ct_%s_ctor6' % t, timeout=300) for t in ('second', 'minute', 'hour', 'day', 'month', 'year')]
+           [enforce('civil', 'ct_%s_ctor6' % t, timeout=600) for t in ('second', 'minute', 'hour', 'day', 'month', 'year')]
 
 
 def civil_c05_goals():
     ts = ('second', 'minute', 'hour', 'day')
-    return [enforce('civil', 'ymd_ord', timeout=300), enforce('civil', 'day_difference', timeout=400)] + \
-           [enforce('civil', 'step_' + t, timeout=300) for t in ts] + \
+    return [enforce('civil', 'ymd_ord', timeout=600), enforce('civil', 'day_difference', timeout=800)] + \
+           [enforce('civil', 'step_' + t, timeout=600) for t in ts] + \
            [enforce('civil', 'scale_add'), enforce('civil', 'difference_year'), enforce('civil', 'difference_month')] + \
-           [enforce('civil', 'difference_' + t, timeout=300) for t in ('hour', 'minute', 'second')] + \
-           [enforce('civil', 'ct_%s_plus' % t, timeout=300) for t in ts] + \
-           [enforce('civil', 'ct_%s_diff' % t, timeout=300) for t in ts] + \
+           [enforce('civil', 'difference_' + t, timeout=600) for t in ('hour', 'minute', 'second')] + \
+           [enforce('civil', 'ct_%s_plus' % t, timeout=600) for t in ts] + \
+           [enforce('civil', 'ct_%s_diff' % t, timeout=600) for t in ts] + \
            [enforce('civil', 'ct_' + r) for r in ('lt', 'le', 'gt', 'ge', 'eq', 'ne')]
 
 
@@ -56,11 +58,11 @@ C17_LEMMAS = ['lemma_ord_reduce', 'lemma_fd7shift', 'lemma_wd_period', 'lemma_wd
 
 
 def civil_c17_goals():
-    return [plain('civil', 'pl_' + l, timeout=300) for l in C17_LEMMAS] + \
-           [enforce('civil', 'get_weekday', timeout=400), enforce('civil', 'get_yearday'),
-            enforce('civil', 'next_weekday', timeout=300, unwind=9, unwind_only=('next_weekday#2',)),
-            enforce('civil', 'prev_weekday', timeout=300, unwind=9, unwind_only=('prev_weekday#2',), no_replace=('ct_day_minus',)),
-            enforce('civil', 'step_day', timeout=300), enforce('civil', 'ct_day_plus', timeout=300)]
+    return [plain('civil', 'pl_' + l, timeout=600) for l in C17_LEMMAS] + \
+           [enforce('civil', 'get_weekday', timeout=800), enforce('civil', 'get_yearday', timeout=800),
+            enforce('civil', 'next_weekday', timeout=600, unwind=9, unwind_only=('next_weekday#2',)),
+            enforce('civil', 'prev_weekday', timeout=600, unwind=9, unwind_only=('prev_weekday#2',), no_replace=('ct_day_minus',)),
+            enforce('civil', 'step_day', timeout=600), enforce('civil', 'ct_day_plus', timeout=600)]
 
 
 PROPERTIES = {
@@ -99,13 +101,29 @@ def goals_for(pid, tier):
 def fixed_goals():
     un = dict(unwind=34, backends=('sat', 'cvc5bv'))
     return [enforce('fixed', 'Format02d', **un), enforce('fixed', 'Parse02d', **un),
-            enforce('fixed', 'FixedOffsetFromName', timeout=300, **un), enforce('fixed', 'FixedOffsetToName', timeout=300, **un),
-            enforce('fixed', 'FixedOffsetToAbbr', timeout=300, **un),
-            G('pl_C15_roundtrip', 'fixed', harness='pl_C15_roundtrip', kind='lemma', timeout=300, **un),
-            G('pl_C15_far_is_utc', 'fixed', harness='pl_C15_far_is_utc', kind='lemma', timeout=300, **un)]
+            enforce('fixed', 'FixedOffsetFromName', timeout=600, **un), enforce('fixed', 'FixedOffsetToName', timeout=600, **un),
+            enforce('fixed', 'FixedOffsetToAbbr', timeout=600, **un),
+            G('pl_C15_roundtrip', 'fixed', harness='pl_C15_roundtrip', kind='lemma', timeout=600, **un),
+            G('pl_C15_far_is_utc', 'fixed', harness='pl_C15_far_is_utc', kind='lemma', timeout=600, **un)]
 
 
-NOT_YET = {}
+NOT_YET = {
+    'C03': 'not claimed: the round-trip statement is a lemma over the BreakTime and MakeTime contracts (both discharged, see C01/C02) that must relate the bracket of an instant by '
+           'unix time to the bracket of its civil second by civil time; that needs the table-wide order and spacing facts, which the quantifier-free ghost-index contracts '
+           'do not carry. Not mechanised in the time available; no weaker claim is made in its place (DESIGN.md 11.6).',
+    'C06': 'not claimed: monotonicity of convert() relates two MakeTime calls whose civil seconds may lie in different brackets; as for C03 the composition lemma needs '
+           'table-wide order facts and was not mechanised (DESIGN.md 11.6). MakeTime itself is under contract (C02).',
+    'C07': 'not claimed: unit `format` (time_zone_format.cc: std::string building, strftime/strptime pass-through, locale) was not brought through the extractor in the time '
+           'available; nothing is verified for it (DESIGN.md 11.6).',
+    'C08': 'not claimed: see C07 - the format() cursor loop and its helpers are not extracted.',
+    'C09': 'not claimed: see C07 - the parse() specifier loop and its helpers are not extracted.',
+    'C11': 'not claimed: contracts, loop invariants and the EquivTransitions contract for NextTransition / PrevTransition are written (contracts/zone.h, units/zone_loops.py) and '
+           'EquivTransitions is discharged, but the loop-invariant and postcondition obligations of the two loops time out on every back end (400 s) - undecided is never a verdict, so '
+           'the property is not claimed (DESIGN.md 11.6).',
+    'C12': 'not claimed: TimeZoneInfo::Load (stream reads, std::vector growth, 190 lines) is not under contract; findings D2 and D6 against this property are documented in DESIGN.md '
+           'sections 7 and 11.4. The POSIX-footer field parsers it calls are covered by C16, TransOffset by C01.',
+    'C18': 'not claimed: unit `chrono` (split_seconds / join_seconds templates over std::chrono durations) needs template-instantiation rewrites that were not built (DESIGN.md 11.6).',
+}
 
 PROPERTIES['C05'] = dict(
     goals=lambda: civil_spec_lemmas() + civil_leaves() + civil_nday() + civil_carry_chain() + civil_c05_goals(),
@@ -183,12 +201,12 @@ ZD = dict(defines=['OSEC_OPAQUE'])     # the kernel sees the second ordinal of a
 
 
 def zone_lemmas():
-    return [plain('zone', 'pl_' + l, timeout=300) for l in ZONE_LEMMAS]
+    return [plain('zone', 'pl_' + l, timeout=600) for l in ZONE_LEMMAS]
 
 
 def zone_c01_goals():
-    return zone_lemmas() + [enforce('zone', f, timeout=400, **ZD) for f in ('LocalTime_TransitionType', 'LocalTime_Transition', 'BreakTime')] + \
-           [enforce('rule', 'TransOffset', timeout=300, backends=('sat', 'cvc5bv'))]
+    return zone_lemmas() + [enforce('zone', f, timeout=800, **ZD) for f in ('LocalTime_TransitionType', 'LocalTime_Transition', 'BreakTime')] + \
+           [enforce('rule', 'TransOffset', timeout=600, backends=('sat', 'cvc5bv'))]
 
 
 MT_INLINE = ('ct_lt', 'ct_le', 'ct_gt', 'ct_ge', 'MakeUnique_tp', 'MakeUnique_unix')   # tiny bodies: verified inline rather than through their contracts
@@ -202,7 +220,7 @@ def maketime_goals():
 
 
 def zone_c02_goals():
-    return zone_lemmas() + [enforce('zone', f, timeout=400, **ZD) for f in ('MakeUnique_tp', 'MakeUnique_unix', 'MakeSkipped', 'MakeRepeated')] + maketime_goals()
+    return zone_lemmas() + [enforce('zone', f, timeout=800, **ZD) for f in ('MakeUnique_tp', 'MakeUnique_unix', 'MakeSkipped', 'MakeRepeated')] + maketime_goals()
 
 
 def civil_second_support(tier_only='thorough'):
@@ -254,7 +272,7 @@ PROPERTIES['C02'] = dict(
     trusted_base=ZONE_TRUSTED, not_decided='Load; TimeLocal / extended_ years; global counting argument', assumptions=ZONE_ASSUME,
 )
 PROPERTIES['C14'] = dict(
-    goals=lambda: zone_lemmas() + [enforce('zone', 'BreakTime', timeout=400, **ZD)] + maketime_goals() + civil_second_support(),
+    goals=lambda: zone_lemmas() + [enforce('zone', 'BreakTime', timeout=800, **ZD)] + maketime_goals() + civil_second_support(),
     level_text='Proof that the results of BreakTime and MakeTime do not depend on the remembered hints: the relaxed load of local_time_hint_ / time_local_hint_ is modelled as '
                'returning an arbitrary value (ghost gz_hint, unconstrained), the store as invisible, and the postconditions - which do not mention the hint - are proved for every '
                'such value; the functions are const and have an empty assigns clause (frame condition checked by CBMC\'s contract instrumentation).',
@@ -263,7 +281,7 @@ PROPERTIES['C14'] = dict(
 )
 
 PROPERTIES['C10'] = dict(
-    goals=lambda: zone_lemmas() + [enforce('zone', f, timeout=400, **ZD) for f in ('LocalTime_TransitionType', 'LocalTime_Transition', 'BreakTime', 'MakeUnique_tp', 'MakeUnique_unix',
+    goals=lambda: zone_lemmas() + [enforce('zone', f, timeout=800, **ZD) for f in ('LocalTime_TransitionType', 'LocalTime_Transition', 'BreakTime', 'MakeUnique_tp', 'MakeUnique_unix',
                                                                                 'MakeSkipped', 'MakeRepeated', 'TimeLocal')] + maketime_goals() + civil_second_support(),
     level_text='Proof, under the stated table well-formedness and margin, that the lookup kernel has no undefined behaviour for ANY int64 instant and ANY valid civil second '
                '(every signed-overflow, conversion, pointer and bounds obligation CBMC generates for LocalTime x2, BreakTime, MakeTime, MakeUnique/Skipped/Repeated and TimeLocal is '
